@@ -103,6 +103,18 @@ public:
     void updateLabelsFromIndex();
 
     /**
+     * @brief Update the index based property references from their textual names.
+     * This is the inverse of updateLabelsFromIndex():
+     * The lua commands refer to properties by name, but the .fem file formats (and the solvers) use the index into the property lists.
+     * Adding, deleting or renaming a property changes what an index means,
+     * therefore the index based references must be re-resolved whenever one of the property lists changes.
+     * A name that is not (or no longer) defined yields the index -1.
+     *
+     * Note: this also updates blockMap, circuitMap, lineMap and nodeMap.
+     */
+    void updateIndicesFromLabels();
+
+    /**
      * @brief Update the blockMap.
      * Call this function whenever the block properties change (i.e. whenever a new element is added or a BlockName changes).
      */
